@@ -39,14 +39,35 @@ type Entry struct {
 
 // Opcodes and statuses (memcached binary protocol).
 const (
-	OpGet = 0x00; OpSet = 0x01; OpAdd = 0x02; OpReplace = 0x03; OpDelete = 0x04
-	OpQuit = 0x07; OpGetQ = 0x09; OpNoop = 0x0a; OpVersion = 0x0b
-	OpAppend = 0x0e; OpPrepend = 0x0f; OpTouch = 0x1c; OpGat = 0x1d; OpGatQ = 0x1e
-	OpGetE = 0x40; OpGetEQ = 0x41
+	OpGet     = 0x00
+	OpSet     = 0x01
+	OpAdd     = 0x02
+	OpReplace = 0x03
+	OpDelete  = 0x04
+	OpQuit    = 0x07
+	OpGetQ    = 0x09
+	OpNoop    = 0x0a
+	OpVersion = 0x0b
+	OpAppend  = 0x0e
+	OpPrepend = 0x0f
+	OpTouch   = 0x1c
+	OpGat     = 0x1d
+	OpGatQ    = 0x1e
+	OpGetE    = 0x40
+	OpGetEQ   = 0x41
 
-	StOK = 0x00; StNotFound = 0x01; StExists = 0x02; StTooBig = 0x03; StInval = 0x04
-	StNotStored = 0x05; StUnknown = 0x81; StNoMem = 0x82; StNotSupported = 0x83
-	StInternal = 0x84; StBusy = 0x85; StTemp = 0x86
+	StOK           = 0x00
+	StNotFound     = 0x01
+	StExists       = 0x02
+	StTooBig       = 0x03
+	StInval        = 0x04
+	StNotStored    = 0x05
+	StUnknown      = 0x81
+	StNoMem        = 0x82
+	StNotSupported = 0x83
+	StInternal     = 0x84
+	StBusy         = 0x85
+	StTemp         = 0x86
 )
 
 var statusText = map[uint16]string{
